@@ -7,9 +7,12 @@ import (
 	"gitee.com/xuesongtao/protoc-go-valid/valid"
 )
 
-var splitAlphabet = []string{",", ",", ",", "'", "'", "|", "=", "a", "b", "/", " ", "中", "\\", "\xff", "(", ")"}
-var valueAlphabet = []string{"a", "b", "1", "2", "~", "/", "(", ")", "=", "中", "文", " ", "-", ".", "\\d", "+"}
-var msgAlphabet = []string{"m", "s", "g", " ", "中", "文", "=", "|", "~", "(", ")", "1", "龥", "一", "䷿", "龦"}
+// every other printable ASCII punctuation mark and a few control bytes, at lower weight: a splitter or parser
+// that starts treating one of them specially (another quote character, an escape, a second separator) must show
+var otherPunct = []string{"\"", "`", ";", ":", "[", "]", "{", "}", "<", ">", "!", "?", "#", "$", "%", "&", "*", "@", "^", "_", "\t", "\n", "\x00"}
+var splitAlphabet = append([]string{",", ",", ",", ",", ",", ",", "'", "'", "'", "'", "|", "|", "=", "=", "a", "a", "b", "b", "/", " ", "中", "\\", "\xff", "(", ")"}, otherPunct...)
+var valueAlphabet = append([]string{"a", "a", "b", "b", "1", "1", "2", "2", "~", "~", "/", "/", "(", ")", "=", "中", "文", " ", "-", ".", "\\d", "+"}, otherPunct...)
+var msgAlphabet = append([]string{"m", "m", "s", "s", "g", "g", " ", " ", "中", "文", "=", "=", "|", "~", "(", ")", "1", "龥", "一", "䷿", "龦"}, otherPunct...)
 
 func implSplit(s string, sep byte) string {
 	return guard(func() string {
